@@ -1056,7 +1056,37 @@ def np_triu_indices(eng, st, args, kw, node):
 
 @model('numpy.vstack')
 def np_vstack(eng, st, args, kw, node):
-    raise Unsupported("np.vstack needs the stacking contract (handled by a dedicated model)")
+    """ASSUMED: np.vstack(list of 2-D arrays with equal column counts) = their row-wise concatenation in list order.
+    Row offsets are given by the ghost function row_offset(result, s) (prefix sums of the parts' row counts)."""
+    v = args[0]
+    if not (isinstance(v.k, tuple) and v.k[0] == 'list' and v.k[1] == ('arr', 2, 'real')):
+        raise Unsupported("np.vstack of %r" % (v.k,))
+    used(eng, "np.vstack(list of 2-D arrays): fresh array; rows of part s occupy result rows [row_offset(s), row_offset(s+1)) in list order")
+    n = eng.list_len(st, v)
+    parts = eng.list_arr(st, v)
+    sh0, sh1 = st.heap.get('sh0'), st.heap.get('sh1')
+    d2 = st.heap.get('d2:real')
+    if not st.spec:
+        s_ = z3.Int(fresh_name('s'))
+        eng.oblige(st, "noexc:vstack-needs-one-array-and-equal-columns@L%d" % node.lineno, 'noexc',
+                   z3.And(n >= 1, z3.ForAll([s_], z3.Implies(z3.And(0 <= s_, s_ < n),
+                                                             z3.Select(sh1, z3.Select(parts, s_)) == z3.Select(sh1, z3.Select(parts, 0))))), node)
+        st.assume(n >= 1)
+    r = eng.new_ref(st)
+    voff = eng.uf('row_offset', I, I, I)
+    s_, i_, c_ = z3.Int(fresh_name('s')), z3.Int(fresh_name('i')), z3.Int(fresh_name('c'))
+    st.assume(voff(r, 0) == 0)
+    st.assume(z3.ForAll([s_], z3.Implies(z3.And(0 <= s_, s_ < n),
+                                         voff(r, s_ + 1) == voff(r, s_) + z3.Select(sh0, z3.Select(parts, s_))),
+                        patterns=[voff(r, s_)]))
+    out = z3.Const(fresh_name('vstack'), z3.ArraySort(I, I, R))
+    st.assume(z3.ForAll([s_, i_, c_], z3.Implies(z3.And(0 <= s_, s_ < n, 0 <= i_, i_ < z3.Select(sh0, z3.Select(parts, s_))),
+                                                 z3.Select(out, voff(r, s_) + i_, c_) == z3.Select(z3.Select(d2, z3.Select(parts, s_)), i_, c_)),
+                        patterns=[z3.Select(z3.Select(d2, z3.Select(parts, s_)), i_, c_)]))
+    st.heap.wr('sh0', r, voff(r, n))
+    st.heap.wr('sh1', r, z3.Select(sh1, z3.Select(parts, 0)))
+    st.heap.wr('d2:real', r, out)
+    return Val(('arr', 2, 'real'), r)
 
 
 @model('numpy.argmin')
@@ -1735,3 +1765,47 @@ def idict_load(eng, st, base, key, node):
         eng.oblige(st, "noexc:KeyError@L%d" % node.lineno, 'noexc', present, node)
         st.assume(present)
     return vint(z3.Select(st.heap.rd('el:int', base.t), key))
+
+
+# ---------------------------------------------------------------- itertools.chain(*lists) -> list
+@model('itertools.chain')
+def m_chain(eng, st, args, kw, node):
+    """list(itertools.chain(*LL)) for a list of lists of floats: the concatenation in order.
+    chain_offset(result, k) = start of part k (prefix sums of the part lengths) -- ghost."""
+    if len(args) != 1 or not (isinstance(args[0].k, tuple) and args[0].k[0] == 'starred'):
+        raise Unsupported("itertools.chain form")
+    v = args[0].py
+    if not (isinstance(v.k, tuple) and v.k[0] == 'list' and v.k[1] == ('list', 'real')):
+        raise Unsupported("itertools.chain over %r" % (v.k,))
+    used(eng, "list(itertools.chain(*lists)): concatenation in list order; part k occupies [chain_offset(k), chain_offset(k+1))")
+    n = eng.list_len(st, v)
+    parts = eng.list_arr(st, v)
+    ln = st.heap.get('len')
+    elr = st.heap.get('el:real')
+    out = z3.Const(fresh_name('chain'), z3.ArraySort(I, R))
+    res = eng.mk_list(st, 'real', z3.IntVal(0), out)
+    off = eng.uf('chain_offset', I, I, I)
+    k_, j_ = z3.Int(fresh_name('k')), z3.Int(fresh_name('j'))
+    st.assume(off(res.t, 0) == 0)
+    st.assume(z3.ForAll([k_], z3.Implies(z3.And(0 <= k_, k_ < n),
+                                         z3.And(off(res.t, k_ + 1) == off(res.t, k_) + z3.Select(ln, z3.Select(parts, k_)),
+                                                z3.Select(ln, z3.Select(parts, k_)) >= 0)), patterns=[off(res.t, k_)]))
+    st.assume(z3.ForAll([k_, j_], z3.Implies(z3.And(0 <= k_, k_ < n, 0 <= j_, j_ < z3.Select(ln, z3.Select(parts, k_))),
+                                             z3.Select(out, off(res.t, k_) + j_) == z3.Select(z3.Select(elr, z3.Select(parts, k_)), j_)),
+                        patterns=[z3.Select(z3.Select(elr, z3.Select(parts, k_)), j_)]))
+    st.heap.wr('len', res.t, off(res.t, n))
+    return res
+
+
+_old_m_list = MODELS['builtins.list']
+
+
+def m_list2(eng, st, args, kw, node):
+    if args and isinstance(args[0].k, tuple) and args[0].k[0] == 'list':
+        return _old_m_list(eng, st, args, kw, node)
+    return _old_m_list(eng, st, args, kw, node)
+
+
+@model('sys.stdout')
+def sys_stdout(eng, st, args, kw, node):
+    return Val(('opaque', 'stream'), z3.IntVal(1))
